@@ -1,5 +1,6 @@
 import SedVerif.Model.Dist
 import SedVerif.Proofs.Fit
+import SedVerif.Proofs.FitFlags
 import Mathlib.Tactic.Ring
 import Mathlib.Tactic.Linarith
 import Mathlib.Tactic.FieldSimp
@@ -677,6 +678,84 @@ theorem below_any (a0 a1 : K) (rest req : List K) (hinc : Incr (a0 :: a1 :: rest
   refine ⟨clampHi (lastD (a0 :: a1 :: rest) a0) x, List.mem_map_of_mem hx, ?_⟩
   rw [clampHi_of_le _ _ (le_trans (le_of_lt hlt) hle)]
   simpa using hlt
+
+/-! ## the glue between tables, distances and the per-distance band lists -/
+
+theorem thousandK_eq : (thousandK : K) = 1000 := by
+  unfold thousandK tenK two; norm_num
+
+theorem mkPts_getElem? (los : List (LogObs K)) (mfs ks : List K) (j : Nat) (h1 : j < los.length)
+    (h2 : j < mfs.length) (h3 : j < ks.length) :
+    (mkPts los mfs ks)[j]? = some { r := los[j].lf - mfs[j], k := ks[j], q := scLaw, w := los[j].w,
+                                    flag := los[j].flag, e := los[j].le } := by
+  rw [mkPts_eq_map_zip]
+  simp [h1, h2, h3]
+
+theorem exceptMap_ok {ε α β : Type} (f : α → β) (x : Except ε α) (y : β) (h : x.map f = .ok y) :
+    ∃ v, x = .ok v ∧ y = f v := by
+  cases x with
+  | error e => simp [Except.map] at h
+  | ok v => simp only [Except.map, Except.ok.injEq] at h; exact ⟨v, rfl, h.symm⟩
+
+theorem seqE_ok_of_forall {ε α : Type} (l : List (Except ε α)) (h : ∀ x ∈ l, ∃ v, x = .ok v) :
+    ∃ out, seqE l = .ok out := by
+  induction l with
+  | nil => exact ⟨[], rfl⟩
+  | cons x xs ih =>
+    obtain ⟨v, rfl⟩ := h x List.mem_cons_self
+    obtain ⟨vs, hvs⟩ := ih (fun y hy => h y (List.mem_cons_of_mem _ hy))
+    exact ⟨v :: vs, by simp [seqE, hvs]⟩
+
+theorem mem_zipWith {α β γ : Type} (f : α → β → γ) (l1 : List α) (l2 : List β) (x : γ)
+    (h : x ∈ List.zipWith f l1 l2) : ∃ a ∈ l1, ∃ b ∈ l2, x = f a b := by
+  induction l1 generalizing l2 with
+  | nil => simp at h
+  | cons a as ih =>
+    cases l2 with
+    | nil => simp at h
+    | cons b bs =>
+      simp only [List.zipWith_cons_cons, List.mem_cons] at h
+      rcases h with rfl | h
+      · exact ⟨a, List.mem_cons_self, b, List.mem_cons_self, rfl⟩
+      · obtain ⟨a', ha', b', hb', rfl⟩ := ih bs h
+        exact ⟨a', List.mem_cons_of_mem _ ha', b', List.mem_cons_of_mem _ hb', rfl⟩
+
+theorem clampK_mem (lo hi x : K) (h : lo ≤ hi) : lo ≤ clampK lo hi x ∧ clampK lo hi x ≤ hi := by
+  unfold clampK
+  by_cases h1 : x < lo
+  · simp only [h1, if_true]
+    by_cases h2 : hi < lo
+    · exact absurd h (not_le.mpr h2)
+    · simp only [h2, if_false]; exact ⟨le_rfl, h⟩
+  · simp only [h1, if_false]
+    by_cases h2 : hi < x
+    · simp only [h2, if_true]; exact ⟨h, le_rfl⟩
+    · simp only [h2, if_false]; exact ⟨not_lt.mp h1, not_lt.mp h2⟩
+
+theorem head_le_lastD (a0 a1 : K) (rest : List K) (hinc : Incr (a0 :: a1 :: rest)) :
+    a0 ≤ lastD (a0 :: a1 :: rest) a0 := by
+  have hs : SortedX ((a0 :: a1 :: rest).zip (a0 :: a1 :: rest)) := sortedX_zip _ _ hinc
+  have := sortedX_head_le _ _ hs _ (lastD_mem (((a1 :: rest).zip (a1 :: rest))) (a0, a0))
+  rw [lastD_zip_fst (a1 :: rest) (a1 :: rest) rfl a0 a0] at this
+  simpa [lastD] using this
+
+theorem any_lt_eq_false (l : List K) (a0 : K) (h : ∀ x ∈ l, ¬ x < a0) :
+    (l.any (fun x => decide (x < a0))) = false := by
+  rw [List.any_eq_false]
+  intro x hx
+  simpa using h x hx
+
+/-- `interp1d` evaluated inside the table of a column with as many entries as apertures -/
+theorem interpStrictT_col (a0 a1 : K) (rest col : List K) (hcol : col.length = (a0 :: a1 :: rest).length)
+    (y : K) (h0 : a0 ≤ y) (h1 : y ≤ lastD (a0 :: a1 :: rest) a0) :
+    interpStrictT ((a0 :: a1 :: rest).zip col) y = .ok (interpIn ((a0 :: a1 :: rest).zip col) y) := by
+  cases col with
+  | nil => simp at hcol
+  | cons c0 ct =>
+    simp only [List.zip_cons_cons]
+    have hl : (lastD ((a1 :: rest).zip ct) (a0, c0)).1 = lastD (a0 :: a1 :: rest) a0 := by
+      rw [lastD_zip_fst (a1 :: rest) ct (by simpa using hcol.symm) a0 c0]; simp [lastD]
+    exact interpStrictT_eq (a0, c0) _ _ h0 (by rw [hl]; exact h1)
 
 end Dist
 end SF
